@@ -5,7 +5,7 @@ import Gimli.Model.Op
 
 * `Config` — what is fixed before `evaluate()`: byte order, `Encoding`, storage capacities
   (`EvaluationStorage`: `none` = `Vec` (heap, grows), `some n` = `[T; n]`), arithmetic `Mode`
-  (only the `u32` iteration counter depends on it), `object_address`, `max_iterations`, `addr_mask`.
+  (only `addr_mask` for impossible address sizes ≥ 9 depends on it), `object_address`, `max_iterations`, `addr_mask`.
 * `Mach` — what one operation can touch: `bytecode`, `pc`, value stack, expression (call) stack,
   result pieces, `value_result`.  A reader is "the bytes that remain", so `pc` is the suffix of
   `bytecode` still to execute and `pc.offset_from(bytecode) = bytecode.length - pc.length`.
@@ -18,7 +18,7 @@ is visible in its type. Functions return `Out (result × new state)`; an error d
 Rust object after an `Err` is observable only through `evaluate()`'s sticky `Error` state, which
 `evaluate` models; calling `resume_with_*` again after an `Err` is outside the protocol.
 The loop of `evaluate_internal` takes fuel (`diverge` when it runs out; C07 `iter_limit` shows
-`max_iterations + 1` always suffices when a limit is set).
+`max_iterations + 2` always suffices when a limit is set).
 -/
 namespace Gimli.Eval
 open Gimli.Op
@@ -342,17 +342,16 @@ def endOfExpression (m : Mach) : Bool × Mach :=
   match unwind m.pc m.bytecode m.exprStack with
   | (b, pc, bc, stk) => (b, { m with pc := pc, bytecode := bc, exprStack := stk })
 
-/-- `self.iteration += 1` on a `u32` -/
-def bumpIteration (mode : Mode) (iteration : Nat) : Out Nat :=
-  if iteration + 1 < 2 ^ 32 then .ok (iteration + 1)
-  else match mode with
-    | .debug => .panic "attempt to add with overflow"
-    | .release => .ok 0
+/-- `self.iteration.saturating_add(1)` on a `u32` (the `fix:` for finding C07-2: it used to be an
+unchecked `+= 1` before the comparison) -/
+def saturatingInc (iteration : Nat) : Nat :=
+  if iteration + 1 < 2 ^ 32 then iteration + 1 else 2 ^ 32 - 1
 
-/-- `if let Some(max_iterations) = self.max_iterations && self.iteration > max_iterations` -/
+/-- `if let Some(max_iterations) = self.max_iterations && self.iteration >= max_iterations`,
+tested before the counter is incremented -/
 def overLimit (maxIterations : Option Nat) (iteration : Nat) : Bool :=
   match maxIterations with
-  | some mx => iteration > mx
+  | some mx => iteration ≥ mx
   | none => false
 
 /-- the tail of `evaluate_internal` after the loop: "if no pieces have been seen, use the stack
@@ -407,13 +406,12 @@ def loopBody (k : Eval → Out (Request × Eval)) (s : Eval) : Out (Request × E
   | (true, m) => do
     let m ← finish s.cfg m
     pure (.complete, { s with m := m, state := .complete })
-  | (false, m) => do
-    let iteration ← bumpIteration s.cfg.mode s.iteration
-    match overLimit s.cfg.maxIterations iteration with
+  | (false, m) =>
+    match overLimit s.cfg.maxIterations s.iteration with
     | true => .err .rTooManyIterations
     | false => do
       let (r, m') ← evaluateOneOperation s.cfg m
-      afterOp k { s with m := m, iteration := iteration, decodes := s.decodes + 1 } r m'
+      afterOp k { s with m := m, iteration := saturatingInc s.iteration, decodes := s.decodes + 1 } r m'
 
 /-- `Evaluation::evaluate_internal` with fuel for the `while` loop -/
 def evaluateInternal : Nat → Eval → Out (Request × Eval)
